@@ -528,6 +528,6 @@ class Lines:
 
 
 def generate(r, size=None):
-    g = Gen(r, size=size or r.choice([4, 8, 12, 18, 25]), max_depth=r.choice([1, 2, 3]))
+    g = Gen(r, size=size or r.choice([3, 5, 8, 12, 16]), max_depth=r.choice([1, 2, 3]))
     src = g.function()
     return src, sorted(g.features)
